@@ -430,6 +430,17 @@ class ColorValue(Value):
                         continue
 
                     # save components
+                    if (
+                        type_ in (Value.NUMBER, Value.PERCENTAGE)
+                        and abs(item.value.value) > 1e100
+                    ):
+                        # no number a colour is made of (nor a float at all)
+                        self.wellformed = False
+                        self._log.error(
+                            'ColorValue: Number out of range: %s...'
+                            % item.value.cssText[:20]
+                        )
+                        return
                     if type_ == Value.NUMBER:
                         raw.append(item.value.value)
                         check += 'N'
@@ -1018,7 +1029,7 @@ def _URIProd(parent, nextSor=False, toStore=None):
     )
 
 
-reHexcolor = re.compile(r'^\#(?:[0-9abcdefABCDEF]{3}|[0-9abcdefABCDEF]{6})$')
+reHexcolor = re.compile(r'^\#(?:[0-9abcdefABCDEF]{3}|[0-9abcdefABCDEF]{6})\Z')
 
 
 def _ColorProd(parent, nextSor=False, toStore=None):
